@@ -154,6 +154,9 @@ func (rc *realController) Finalize(release *v1beta1.BatchRelease) error {
 		patchData.UpdateMinReadySeconds(setting.MinReadySeconds)
 		patchData.UpdateMaxSurge(setting.MaxSurge)
 		patchData.UpdateMaxUnavailable(setting.MaxUnavailable)
+		// the webhook holds the cloneset back with partition=100%; release it here too,
+		// because the release may end before any UpgradeBatch has cleared it
+		patchData.UpdatePartiton(nil)
 		patchData.DeleteAnnotation(v1beta1.OriginalDeploymentStrategyAnnotation)
 		patchData.DeleteAnnotation(util.BatchReleaseControlAnnotation)
 		if err := rc.client.Patch(context.TODO(), c, patchData); err != nil {
